@@ -237,10 +237,17 @@ def canon_bool(V, truth):
         if op in ("Eq", "Ne") and b[0] == "const" and type(b[1]) is bool:
             inner_truth = (b[1] is True) == (op == "Eq")
             return canon_bool(a, truth == inner_truth)
-        # canonical: use Lt / Le / Eq only
-        if op in ("Ge", "Gt", "Ne"):
-            op = NEG[op]
-            truth = not truth
+        # canonical: Lt and Eq only, so that `a < b`, `b > a`, `!(a >= b)` and `!(b <= a)` are one atom
+        if op == "Ne":
+            op, truth = "Eq", not truth
+        elif op == "Ge":                      # a >= b  ==  !(a < b)
+            op, truth = "Lt", not truth
+        elif op == "Gt":                      # a > b   ==  b < a
+            op, a, b = "Lt", b, a
+        elif op == "Le":                      # a <= b  ==  !(b < a)
+            op, a, b, truth = "Lt", b, a, not truth
+        if op == "Eq" and a[0] == "const" and b[0] != "const":
+            a, b = b, a
         return (("cmp", op, a, b), truth)
     if V[0] == "call":
         cn = cname(V[1])
